@@ -121,7 +121,7 @@ func load() (*Loaded, error) {
 			continue
 		}
 		for _, gf := range p.GoFiles {
-			if strings.HasSuffix(gf, "zz_contracts_verif.go") {
+			if base := filepath.Base(gf); strings.HasPrefix(base, "zz_") && strings.HasSuffix(base, "_verif.go") {
 				if err := l.db.LoadSpecFile(gf, p.PkgPath, false); err != nil {
 					return nil, err
 				}
@@ -311,6 +311,40 @@ func run() int {
 			}
 			rep.Extra = append(rep.Extra, &CheckResult{Check: ck, Status: st, Solver: "ssa-scan", Output: out, Model: out})
 		}
+	}
+	// complete method sets of types whose callers dispatch on optional interfaces
+	for _, ms := range db.MethodSets {
+		if prop != "" && !hasProp(ms.Props, prop) {
+			continue
+		}
+		if *flagFn != "" {
+			continue
+		}
+		var got []string
+		found := false
+		for _, sp := range l.spkgs {
+			if sp == nil || sp.Pkg.Path() != ms.Pkg {
+				continue
+			}
+			if obj := sp.Pkg.Scope().Lookup(ms.Type); obj != nil {
+				found = true
+				mset := types.NewMethodSet(types.NewPointer(obj.Type()))
+				for i := 0; i < mset.Len(); i++ {
+					got = append(got, mset.At(i).Obj().Name())
+				}
+			}
+		}
+		sort.Strings(got)
+		ck := &Check{Name: ms.Pkg + ".(*" + ms.Type + ")/methods#exact", Class: "structure", Fn: ms.Pkg + "." + ms.Type, Props: ms.Props,
+			Info: "the method set of *" + ms.Type + " is exactly {" + strings.Join(ms.Methods, ", ") + "}", Src: ms.Src, Goal: "false"}
+		st := "failed"
+		out := "method set in the current tree: {" + strings.Join(got, ", ") + "}"
+		if found && strings.Join(got, ",") == strings.Join(ms.Methods, ",") {
+			st = "trivial"
+			ck.Trivial = true
+			out = ""
+		}
+		rep.Extra = append(rep.Extra, &CheckResult{Check: ck, Status: st, Solver: "type-check", Output: out, Model: out})
 	}
 	// package-level initialisers pinned to literals
 	for _, gi := range db.GlobalInits {
